@@ -1,2 +1,16 @@
+(* C08: today's behaviour that violates the property, on the `_current` variant of the model.
+   eval_query_current mirrors FillTransform: fill(previous) of a descending query is computed in iteration order. *)
 From Coq Require Import ZArith List Bool.
-From OG Require Import C08.Model.
+From OG Require Import C08.Model C08.Proofs.
+Import ListNotations.
+Open Scope Z_scope.
+
+Theorem C08_fill_previous_desc_refuted : exists db q,
+  has_limit q = false /\
+  eval_query_current db (set_desc q true) <> rev_answer (eval_query_current db (set_desc q false)).
+Proof.
+  exists [([3], [(2, [Some 72]); (6, [Some 8])])].
+  exists (mkQ (SelAgg [(FMax, 0%nat, 8)]) (Some 0) (Some 14) PTrue [] 5 FillPrev 0 0 false).
+  split; [reflexivity|]. vm_compute. discriminate.
+Qed.
+Print Assumptions C08_fill_previous_desc_refuted.
